@@ -23,7 +23,7 @@ CONSTANTS Dropped,     \* set of guards missing from the modelled code ({} = the
 (* hazards by name; each is neutralised by the guard of the same name *)
 Hazard(f, p, entry) ==
   CASE f = "cron-tz" /\ Cls(f, p) = "tz-without-fields" /\ entry = "cron.Parse" -> "tz-needs-a-space"
-    [] f \in {"cron-sep", "cron-list"} /\ entry = "cron.Next" -> "five-year-bound"
+    [] f \in {"cron-sep", "cron-list", "cron-combo"} /\ entry = "cron.Next" -> "five-year-bound"
     [] f = "kw-unwrap" /\ p.len < 16 -> "wrapped-key-min-length"
     [] f = "sym-dec" /\ AlgFam(p.alg) = "AES-KW" /\ p.sweep = "ciphertext" /\ p.len < 16 -> "wrapped-key-min-length"
     [] f = "enc-wfk" /\ p.kw = 1 /\ p.len < 16 -> "wrapped-key-min-length"
